@@ -240,7 +240,8 @@ def buildCalls (oc : OCfg) (st : St) (op : Op) : Except Err Plan :=
           let nfr : Frag := { id := newId, files := [⟨u, m.fields⟩], del := none, phys := rows.length }
           let frags' := (m.frags.filter (fun f => !ids.contains f.id)) ++ [nfr]
           let mRes := { m with nextFrag := m.nextFrag + 1 }
-          -- indices: remapped (new uuid, two files) when row addresses change; bitmap updated
+          -- indices: remapped (new uuid, two files, both WRITTEN: since /repo 360e86b `BTreeIndex::remap` retrains on the remapped
+          -- entries instead of rewriting the pages and copying the lookup file) when row addresses change; bitmap updated
           let touch : Index → Bool := fun i => ids.any (fun x => i.frags.contains x)
           let remap := !oc.stable
           let idx' := (m.indices.zipIdx).map (fun e =>
@@ -250,7 +251,7 @@ def buildCalls (oc : OCfg) (st : St) (op : Op) : Except Err Plan :=
             else e.1)
           let idxCalls := if remap then (m.indices.zipIdx).flatMap (fun e =>
             if touch e.1 then
-              [Call.put (.file .idx (u + 3 + e.2) 0) .blob, Call.copy (.file .idx e.1.id 1) (.file .idx (u + 3 + e.2) 1)]
+              [Call.put (.file .idx (u + 3 + e.2) 0) .blob, Call.put (.file .idx (u + 3 + e.2) 1) .blob]
             else []) else []
           let w := m.indices.length
           let mNew := { mRes with frags := frags', indices := idx' }
